@@ -31,10 +31,12 @@ proper invariant equivalence relation), `Proofs/Delaney2dGenus.lean` (χ_top + #
 connected weakly oriented symbols, χ_top ≤ 1 for connected symbols that are not oriented, the
 genus monitor as a theorem, `is_spherical` in the Spec's symbol form).
 
-Not a theorem (see `open_obligations` in conf/C08.json): a connected symbol that is not weakly
-oriented and has a mirror (non-orientable surface with boundary) has at least one cross-cap, i.e.
-χ_top + #boundaries ≤ 1 (proved here: χ_top ≤ 1) — so for such symbols the theorems keep the
-hypothesis that `orbifold_symbol` answers.
+`Proofs/Delaney2dLift.lean`, `Proofs/Delaney2dLiftGenus.lean` (the orientation double cover of the
+capped surface of an arbitrary symbol as an oriented map: χ_top + #boundaries ≤ 1 for connected
+symbols that are not weakly oriented, `orbifold_symbol` answers every connected symbol).
+
+For connected symbols nothing is left open; without connectedness the theorems about the orbifold
+symbol keep the hypothesis that `orbifold_symbol` answers (see conf/C08.json).
 -/
 import DSymVerif.Proofs.Delaney2dGeom
 import DSymVerif.Proofs.Delaney2dChi
@@ -49,6 +51,7 @@ import DSymVerif.Proofs.Delaney2dSpecLink
 import DSymVerif.Proofs.Delaney2dClosedOrientable
 import DSymVerif.Proofs.Delaney2dMapVertices
 import DSymVerif.Proofs.Delaney2dGenus
+import DSymVerif.Proofs.Delaney2dLiftGenus
 
 namespace DSymVerif.C08
 open DSymVerif.DS DSymVerif.D2 DSymVerif.SpecC08
@@ -839,15 +842,44 @@ theorem isSpherical_iff_spec (s : Sym) (g : Good2d s) (hsz : 1 ≤ s.size)
   cases ho'
   exact ⟨K, hK, hv, hs⟩
 
-/-- **all three sentences for connected symbols that are weakly oriented or have no mirror, with
-    no hypothesis about the answers**: `orbifold_symbol` answers, K = 2·χ(symbol), and
-    `is_spherical` ⇔ K > 0 ∧ ¬bad(symbol). -/
+/-- **a connected symbol that is not weakly oriented has `χ_top + #boundary components ≤ 1`.**
+    The orientation double cover of the capped surface is an oriented map for every valid 2D
+    symbol: darts are the lifted triangle darts (chamber, rotation sense, edge) and all valid
+    boundary darts; it is connected when the symbol is connected and not weakly oriented (else a
+    proper 2-colouring of the chambers would exist); it has 2F triangles and, for every boundary
+    walk of `trace_boundary`, the walk and its reverse as caps; and the reflection `α ι` (ι the deck
+    transformation) maps no vertex rotation to itself (two fixed-point-free involutions with
+    product σ, `Dihedral.loop_of_reflection`), so every 2-orbit carries at least two vertices.
+    Ree's inequality gives 2(χ_top + b) ≤ 2. -/
+theorem chi_plus_boundaries_le_one (y : DSymData) (h : ValidSym y) (hdim : y.dim = 2)
+    (hc : y.view.isConnected = true) (hnw : y.view.isWeaklyOriented = false) (rep : Rep)
+    (bnds : List (List Nat)) (hb : traceBoundary ⟨y, rep⟩ = .ok bnds) :
+    eulerCharacteristic ⟨y, rep⟩ + (bnds.length : Int) ≤ 1 :=
+  D2.chi_plus_boundaries_le_one h hdim hc hnw rep hb
+
+/-- **`orbifold_symbol` answers every connected good 2D symbol**: its panic branch
+    `2 − χ_top − #boundaries < 0` is never taken. -/
+theorem orbifold_symbol_total (s : Sym) (g : Good2d s) (hc : s.view.isConnected = true) :
+    ∃ o, orbifoldSymbol s = .ok o :=
+  orbifoldSymbol_total g hc
+
+/-- **a cross-cap for every connected symbol that is not weakly oriented**: the answer of
+    `orbifold_symbol` is non-orientable with at least one cross-cap (`…x…`). -/
+theorem crosscap_of_not_weakly_oriented (s : Sym) (g : Good2d s) (hc : s.view.isConnected = true)
+    (hnw : s.view.isWeaklyOriented = false) (o : OrbSym) (hos : orbifoldSymbol s = .ok o) :
+    o.orientable = false ∧ 1 ≤ o.count :=
+  crosscap_of_not_weaklyOriented g hc hnw hos
+
+/-- **all three sentences of the property for every connected valid complete 2D symbol, with no
+    hypothesis about the answers and no monitor**: `orbifold_symbol` answers, the curvature is
+    twice the Euler characteristic of the orbifold it names, and `is_spherical` ⇔ K > 0 ∧ ¬bad
+    (with `geometry_trichotomy`: euclidean ⇔ K = 0, hyperbolic ⇔ K < 0; invariance under
+    renumbering, dual and covers: section 7 and 10). -/
 theorem consistent_total (s : Sym) (g : Good2d s) (hsz : 1 ≤ s.size)
-    (hc : s.view.isConnected = true)
-    (hcase : s.view.isWeaklyOriented = true ∨ s.view.isLoopless = true) :
+    (hc : s.view.isConnected = true) :
     ∃ K o, curvature s = .ok K ∧ orbifoldSymbol s = .ok o ∧ K.toRat = 2 * chiQ (orbOf o) ∧
       isSpherical s = .ok (decide (0 < K.toRat) && !bad (orbOf o)) := by
-  obtain ⟨o, hos⟩ := orbifoldSymbol_answers g hsz hc hcase
+  obtain ⟨o, hos⟩ := orbifoldSymbol_total g hc
   obtain ⟨K, hK, hv, hs⟩ := isSpherical_iff_spec s g hsz hc o hos
   exact ⟨K, o, hK, hos, hv, hs⟩
 
